@@ -199,10 +199,13 @@ func (pnf *PageNumberFinder) getPageInfoAndText(link *html.Node, pageURL *nurl.U
 		hrefURL.RawFragment = ""
 	}
 
+	// A link without usable target (empty or "javascript:" href) only contributes
+	// its number, like a plain text number. As in original dom-distiller its URL
+	// is left empty, so it can never be returned as a pagination URL.
 	if isEmptyHref || isJavascriptLink {
 		return &info.PageInfo{
 			PageNumber: number,
-			URL:        linkHref,
+			URL:        "",
 		}, linkText
 	}
 
